@@ -81,7 +81,7 @@ open CprocVerif.Types CprocVerif.Spec CprocVerif.Spec.Constraints CprocVerif.Typ
 /-- **Binary operators.**  Whenever `mkbinaryexpr` accepts `l op r` (any of the 18 operators, any
 operand types: arithmetic incl. enums and bit-fields, pointers, `void`, structs, functions), the
 Constraints paragraph of the operator's clause holds: 6.5.5p2, 6.5.6p2-3, 6.5.7p2, 6.5.8p2, 6.5.9p2,
-6.5.10-12p2, 6.5.13-14p2.  (Holds at full strength since fixes 6e57e5d, 2e6f4ec, 802a13f.) -/
+6.5.10-12p2, 6.5.13-14p2.  (Holds at full strength since fixes 6e57e5d, 826c347, ac293b9.) -/
 theorem binop_accept_sound (sc : Bool) (op : BinOp) (l r : Operand) (t : Ty)
     (ol : OperandOk l) (or' : OperandOk r) (h : binopType sc op l r = some t) :
     Constraints.binop op l r = true :=
@@ -108,16 +108,16 @@ theorem binop_accepts_valid (sc : Bool) (op : BinOp) (l r : Operand) (t : Ty)
 /-- **Unary operators.**  Whenever `unaryexpr`/`mkunaryexpr`/`mkincdecexpr` accept, 6.5.3.2p1-2,
 6.5.3.3p1, 6.5.3.4p1 and 6.5.2.4p1/6.5.3.1p1 hold.  For `++`/`--` the typing code leaves "real or
 pointer type" to the code generator (`qbe.c:funcexpr`, "not a scalar"), hence the hypothesis `har`.
-(Full strength since fixes 93895c0 and c22baea: `&g()` on a structure rvalue used to be accepted.) -/
+(Full strength since fixes df57034 and fcded40: `&g()` on a structure rvalue used to be accepted.) -/
 theorem unary_accept_sound (sc : Bool) (op : UnOp) (e o : Operand) (ok : OperandOk e)
     (har : (op = .preinc ∨ op = .predec ∨ op = .postinc ∨ op = .postdec) →
       e.ty.isArith = true ∨ e.ty.isPtr = true)
     (h : unaryOp sc op e = some o) : Constraints.unop op e = true :=
   unop_sound sc op e o ok har h
 
-example : unaryOp true .addr { ty := .struct 0 } = none := by decide   -- fix c22baea
+example : unaryOp true .addr { ty := .struct 0 } = none := by decide   -- fix fcded40
 example : (unaryOp true .postinc { ty := .ptr {} Ty.int, lvalue := true }).map (·.ty) = some (.ptr {} Ty.int) := by decide
-example : unaryOp true .postinc { ty := .ptr {} .void, lvalue := true } = none := by decide   -- fix 93895c0
+example : unaryOp true .postinc { ty := .ptr {} .void, lvalue := true } = none := by decide   -- fix df57034
 example : unaryOp true .addr { ty := Ty.int, lvalue := true, width := some 3 } = none := by decide
 example : unaryOp true .sizeofE { ty := .ptr {} Ty.int, decayedFrom := some (.arr {} .incomplete {} Ty.int, {}) } = none := by
   decide
@@ -142,7 +142,7 @@ theorem sizeof_typename_accept_sound (t r : Ty) (h : Types.sizeofType t = some r
   sizeofType_sound t r h
 
 /-- **Simple assignment** `l = r`, full strength: the left operand is an lvalue (6.5.16p2) and the
-operand types satisfy 6.5.16.1p1.  (The assignment OPERATOR applies `exprassign` since fix 132893c:
+operand types satisfy 6.5.16.1p1.  (The assignment OPERATOR applies `exprassign` since fix 7e9d66c:
 `int *p; int x; p = x;` used to be accepted.) -/
 def assign_accept_sound_full : Prop :=
   ∀ (l r o : Operand), assignType l r = some o → assignLvalue l = true ∧ simpleAssign l.ty r = true
@@ -163,7 +163,7 @@ example : assignType { ty := .ptr {} Ty.int, lvalue := true } { ty := Ty.int } =
     assignType { ty := .ptr {} Ty.int, lvalue := true } { ty := .arith (.basic .double) } = none ∧
     assignType { ty := .struct 1, lvalue := true } { ty := .struct 2 } = none := by decide
 example : (assignType { ty := .ptr {} Ty.int, lvalue := true } { ty := Ty.int, nullconst := true }).isSome = true := by decide
-/-- a member of array type is not an lvalue (fix 2005721: `p->m += 2`, `p->m = q`, `s.arr++`) -/
+/-- a member of array type is not an lvalue (fix 71be578: `p->m += 2`, `p->m = q`, `s.arr++`) -/
 example : (memberType true { ty := .ptr {} (.struct 0) } (.arr {} (.const 4) {} Ty.int) {} none).map (·.lvalue) = some false := by
   decide
 example : (memberType true { ty := .ptr {} (.struct 0) } Ty.int {} none).map (·.lvalue) = some true := by decide
@@ -198,11 +198,11 @@ example : voidVsFuncPtr (.ptr {} Ty.int) (.ptr { c := true } Ty.int) = false ∧
 
 /-- **Function calls**, 6.5.2.2p1-2: the callee is a pointer to function and the number of arguments
 agrees with the prototype (at least the named parameters for a variadic one; full strength since
-fix e3588ce). -/
+fix 49541f0). -/
 theorem call_accept_sound (f o : Operand) (n : Nat) (h : callType f n = some o) : Constraints.call f n = true :=
   call_sound f o n h
 
-example : callType { ty := .ptr {} (.func {} Ty.int [Ty.int, Ty.int] true) } 1 = none := by decide   -- fix e3588ce
+example : callType { ty := .ptr {} (.func {} Ty.int [Ty.int, Ty.int] true) } 1 = none := by decide   -- fix 49541f0
 example : (callType { ty := .ptr {} (.func {} Ty.int [Ty.int] true) } 3).isSome = true := by decide
 example : callType { ty := .ptr {} (.func {} Ty.int [Ty.int] false) } 2 = none ∧
     callType { ty := Ty.int } 0 = none := by decide
@@ -235,8 +235,8 @@ theorem cond_accept_sound_partial (sc : Bool) (c l r : Operand) (t : Ty) (hl : c
     condFirst c = true ∧ (condArms l r = true ∨ (l.ty = .nullptr ∧ r.ty = .nullptr)) :=
   cond_sound sc c l r t hl hx h
 
-example : condType true { ty := .struct 0 } { ty := Ty.int } { ty := Ty.int } = none := by decide   -- fix 8620260
-/-- `(1 ? x : y)` is not an lvalue although the condition is constant and both arms are (fix 7cf2154):
+example : condType true { ty := .struct 0 } { ty := Ty.int } { ty := Ty.int } = none := by decide   -- fix 98b06a1
+/-- `(1 ? x : y)` is not an lvalue although the condition is constant and both arms are (fix f22c49c):
 `(1 ? x : y) = 3`, `&(0 ? x : y)`, `(1 ? x : y)++` are rejected by `assign_accept_sound` /
 `unary_accept_sound` -/
 example : (condOperand true { ty := Ty.int, constval := some true } { ty := Ty.int, lvalue := true }
